@@ -58,9 +58,11 @@ RECURSIVE Comp(_, _)      \* compositions of n with parts <= m
 Comp(n, m) == IF n = 0 THEN {<<>>} ELSE UNION {{<<k>> \o c : c \in Comp(n - k, m)} : k \in 1 .. (IF n < m THEN n ELSE m)}
 Params == {p \in [fps : UNION {Comp(n, MaxFrags) : n \in 1 .. (MaxSegs * MaxFrags)}, delim : Delims, emsg : EmsgOpts,
                   segsidx : SegSidxOpts, ntracks : TrackOpts, flags : FlagOpts,
-                  truns : TrunOpts,            \* track runs per track fragment (the two samples of a fragment in one trun or in two)
+                  truns : TrunOpts,            \* track runs per track fragment (the two samples of a fragment in one trun or in two;
+                                               \* 3: one trun without per-sample durations - the tfhd carries default_sample_duration)
                   rev : BOOLEAN] :             \* the media data of the tracks lies in the mdat in reverse track order (data offsets say where)
               /\ (p.rev => (p.ntracks >= 2 /\ p.truns = 1))
+              /\ (p.truns = 3 => (p.emsg = "none" /\ p.segsidx = 0))
               /\ Len(p.fps) <= MaxSegs
               /\ (p.segsidx > 0 => HasStyp(p.delim))
               /\ (p.delim = "mfra" => p.flags = "ism") /\ (p.delim = "mfra-noflag" => p.flags = "none")
